@@ -134,8 +134,11 @@ func (f *Frame) instr(b *ssa.BasicBlock, ins ssa.Instruction, st *State) {
 		cp := f.val(x.Cap, st)
 		f.nopanic("makeslice_len", reach, fmt.Sprintf("(and (<= 0 %s) (<= %s %s))", ln.Term, ln.Term, cp.Term), x.Pos())
 		if es := elemSize(x.Type()); es > 0 {
-			// runtime.makeslice panics ("cap out of range") when cap*elemsize exceeds the largest allocation (2^48 bytes on amd64)
-			f.nopanic("makeslice_cap_allocatable", reach, fmt.Sprintf("(<= (* %d %s) %s)", es, cp.Term, maxAllocBytes), x.Pos())
+			// runtime.makeslice panics ("cap out of range") when cap*elemsize exceeds the largest allocation (2^48 bytes on
+			// amd64). The obligation asks for cap <= 2^48 elements: exact for one-byte elements, a necessary condition for larger
+			// ones -- so that a slice sized by the length of another collection (which fits the address space, A-MEM) is never
+			// reported, whatever the two element sizes are, while a capacity taken from an unbounded integer is.
+			f.nopanic("makeslice_cap_allocatable", reach, fmt.Sprintf("(<= %s %s)", cp.Term, maxAllocBytes), x.Pos())
 		}
 		loc := g.allocLoc(st)
 		el := g.sorts.sliceEl[s]
